@@ -320,3 +320,57 @@ Proof.
 Qed.
 
 End Overrun.
+
+(* ------------------------------------------------------------------------ *)
+(* executable form, and what the scanner theorems ask                        *)
+(* ------------------------------------------------------------------------ *)
+(* (declared length of section 4, number of data bits) of an encoded message:
+   read off its second-to-last section *)
+Definition sec4_info (m : message) : option (Z * nat) :=
+  match rev (m_sections m) with
+  | _ :: s4 :: _ =>
+      match sec_values s4 with
+      | [(Nsection_length, PUint sl); _; (Ntemplate_data, PData data)] => Some (sl, length data)
+      | _ => None
+      end
+  | _ => None
+  end.
+
+(* v is a 24-bit number, at least the four octets a section header needs, not
+   above the true length, and too small for the section's content *)
+Definition bad_len4b (sl : Z) (nd : nat) (v : Z) : bool :=
+  (4 <=? v)%Z && (v <=? sl)%Z && (v <? 2 ^ 24)%Z && (8 * v <? 32 + Z.of_nat nd)%Z.
+
+Section OverrunHyps.
+Variable dd : list (pname * pvalue) -> reader -> result (bits * reader).
+Hypothesis dd_prefix : forall p r b r', dd p r = Ok (b, r') -> r = b ++ r'.
+Hypothesis dd_suffix : forall p r b r' s, dd p r = Ok (b, r') -> dd p (r ++ s) = Ok (b, r' ++ s).
+Hypothesis dd_cuts : forall p, cuts (dd p).
+Variable view : message -> list N.
+
+Theorem damaged_len4_hyps : forall ign json m sl nd v,
+  encode_message ign json = Ok m -> msg_wfb dd m = true ->
+  sec4_info m = Some (sl, nd) -> bad_len4b sl nd v = true ->
+  starts_sig (dmg_len4 (m_bytes m) sl v) /\
+  length (dmg_len4 (m_bytes m) sl v) = length (m_bytes m) /\
+  full_fails (frame_process dd view false) (dmg_len4 (m_bytes m) sl v) ELib /\
+  info_ok (frame_process dd view true) (dmg_len4 (m_bytes m) sl v).
+Proof.
+  intros ign json m sl nd v Henc Hwf Hinfo Hbad.
+  destruct (msg_wfb_sound dd dd_prefix dd_suffix _ Hwf) as (Hfits & Hdfs & Hdat).
+  destruct (damaged_section4_length dd dd_prefix dd_suffix dd_cuts _ _ _ Henc Hfits Hdfs Hdat)
+    as (pre & s4 & s5 & sl' & rb & data & Esecs & Hv4 & Hsl0 & HslL & Hall).
+  unfold sec4_info in Hinfo. rewrite Esecs, rev_app_distr in Hinfo. cbn [rev app] in Hinfo.
+  rewrite Hv4 in Hinfo. injection Hinfo as <- <-.
+  unfold bad_len4b in Hbad. apply andb_true_iff in Hbad as [Hbad H4]. apply andb_true_iff in Hbad as [Hbad H3].
+  apply andb_true_iff in Hbad as [H1 H2].
+  destruct (Hall v ltac:(lia) ltac:(lia)) as (Hlen & Hst & Hfail & Hinf).
+  split; [exact Hst|]. split; [exact Hlen|]. split.
+  - intros t. unfold frame_process. rewrite Hfail. reflexivity.
+  - destruct (Hinf ltac:(lia)) as (mi & Hmi & Hpl).
+    exists (MsgInfo (length (m_bytes mi)) (length (m_bytes m)) (meta_of view mi)). split.
+    + intros t. unfold frame_process. rewrite Hmi. cbn [bind]. unfold msginfo_of. rewrite Hpl.
+      f_equal. f_equal. lia.
+    + cbn [mi_declared]. symmetry. exact Hlen.
+Qed.
+End OverrunHyps.
